@@ -32,6 +32,17 @@ Definition promote (o : bop) (tl tr : ty) : ty :=
 Definition binds (ps : list param) (nargs : nat) (kwn : list (option string)) : Prop :=
   exists r, fill (fun _ : const => tt) ps (repeat tt nargs) (map (fun k => (k, tt)) kwn) = inl r.
 
+(* the value of key [a] in a dictionary literal: its last occurrence *)
+Fixpoint assoc2_last {A} (x : string) (ks : list string) (vs : list A) : option A :=
+  match ks, vs with
+  | k :: ks', v :: vs' =>
+      match assoc2_last x ks' vs' with
+      | Some r => Some r
+      | None => if String.eqb k x then Some v else None
+      end
+  | _, _ => None
+  end.
+
 Definition ret_of (m : method) : ty := match m_ret m with Some t => t | None => TAny end.
 
 Definition op_result (ct : classtab) (op : opkind) (elem tb : ty) : option ty :=
@@ -72,7 +83,7 @@ Section Typing.
    | wt_boolop G o es ts : wts G es ts -> wt G (BoolOp o es) TBool
    | wt_binop G o l r tl tr :
        wt G l tl -> wt G r tr -> numeric tl -> numeric tr -> wt G (BinOp o l r) (promote o tl tr)
-   | wt_unary G o x t : wt G x t -> wt G (UnaryOp o x) t
+   | wt_unary G o x t : wt G x t -> wt G (UnaryOp o x) (unary_type o t)          (* `not x` is bool, -x +x ~x keep x's type *)
    | wt_ifexp G c x y tc t : wt G c tc -> wt G x t -> wt G y t -> ty_eqb t t = true -> wt G (IfExp c x y) t
    | wt_ifexp_num G c x y tc tx ty' :
        wt G c tc -> wt G x tx -> wt G y ty' -> numeric tx -> numeric ty' -> tx <> ty' -> wt G (IfExp c x y) TFloat
@@ -82,7 +93,7 @@ Section Typing.
    | wt_tuple_index G es ts i t :
        wts G es ts -> nth_error ts i = Some t -> wt G (Subscript (Tuple es) (Const (CInt (Z.of_nat i)))) t
    | wt_dict_field G ns vs ts a t :
-       wts G vs ts -> assoc2 a ns ts = Some t ->
+       wts G vs ts -> length ns = length vs -> assoc2_last a ns ts = Some t ->    (* a key given twice: the last one counts *)
        wt G (Attr (Dict (map (fun n => Const (CStr n)) ns) vs) a) t
    | wt_record_field G v tv a ns ts t :
        wt G v tv -> is_dict v = false -> record_fields ct tv = Some (ns, ts) -> assoc2 a ns ts = Some t ->
@@ -149,12 +160,7 @@ Section Head.
     - rewrite fx_Const in H. inversion H; reflexivity.
     - rewrite fx_Attr in H. crush H. inversion H; reflexivity.
     - assert (Hc : is_call e' = true).
-      { assert (Hcases : (exists v a, e = Attr v a) \/ (exists v a s, e = Subscript (Attr v a) s) \/ plain_callee e).
-        { destruct e; try (right; right; exact I); try (left; eauto; fail).
-          match goal with |- context [plain_callee (Subscript ?x ?y)] => destruct x end;
-            try (right; right; exact I).
-          right; left; eauto. }
-        destruct Hcases as [(v & a & ->)|[(v & a & s & ->)|Hplain]].
+      { destruct (callee_cases e) as [(v & a & ->)|[(v & a & s & ->)|[(ps0 & b0 & ->)|Hplain]]].
         + rewrite fx_Call_method in H. crush H. inversion H; subst.
           match goal with Hp : process_method_call _ _ _ _ _ _ _ = _ |- _ => eapply pmc_is_call; exact Hp end.
         + rewrite fx_Call_param in H. crush H.
@@ -164,6 +170,7 @@ Section Head.
             destruct (get_method_and_class _ _ _) as [[? [?|[?|]]]|]; try discriminate;
             destruct (literal_eval _); try discriminate; inversion Hp as [[Hn Ht He]] end.
           destruct (cb_rw _); reflexivity.
+        + rewrite fx_Call_lambda in H. crush H. destruct (called_ok ps0 args kwn kwv); [crush H|]; inversion H; reflexivity.
         + rewrite fx_Call_plain in H by exact Hplain. crush H.
           match type of H with context [match ?f with _ => _ end] => destruct f end; try (inversion H; reflexivity).
           destruct (find_func (w_ft W) id) as [fn|]; [|inversion H; reflexivity].
@@ -273,21 +280,60 @@ Section Sound.
   Lemma dict_type_consts ns ts : exists t, dict_type (map (fun n => Const (CStr n)) ns) ts = Ok t.
   Proof.
     unfold dict_type. rewrite key_lits_consts, lit_names_strs.
-    destruct (forallb valid_field_name ns && no_dups ns); eauto.
+    destruct (forallb valid_field_name ns); eauto.
   Qed.
 
-  Lemma key_index_assoc2 ns : forall (ts : list ty) a t k,
-    assoc2 a ns ts = Some t ->
-    exists i l, key_index (map (fun n => Const (CStr n)) ns) a k = Some (k + i :: l) /\ nth i ts TAny = t.
+  Lemma key_index_total ns a : forall j, exists l, key_index (map (fun n => Const (CStr n)) ns) a j = Some l.
+  Proof. induction ns as [|x xs IHr]; intros j; cbn; [eauto|]. destruct (IHr (S j)) as [l ->]. cbn. eauto. Qed.
+
+  Lemma key_index_ge ns a : forall k l, key_index (map (fun n => Const (CStr n)) ns) a k = Some l -> Forall (fun i => k <= i) l.
   Proof.
-    induction ns as [|n r IH]; intros ts a t k H; [destruct ts; discriminate|].
-    destruct ts as [|t0 ts]; [discriminate|]. cbn in H. cbn [map key_index].
-    assert (Htot : forall j, exists l, key_index (map (fun n => Const (CStr n)) r) a j = Some l).
-    { clear. induction r as [|x xs IHr]; intros j; cbn; [eauto|]. destruct (IHr (S j)) as [l ->]. cbn. eauto. }
-    destruct (String.eqb n a) eqn:E.
-    - inversion H; subst. destruct (Htot (S k)) as [l ->]. cbn. exists 0, l. rewrite Nat.add_0_r. auto.
-    - destruct (IH ts a t (S k) H) as (i & l & -> & Hn). cbn. exists (S i), l.
-      replace (k + S i) with (S k + i) by lia. auto.
+    induction ns as [|n r IH]; intros k l H; cbn in H.
+    - inversion H; constructor.
+    - destruct (key_index (map (fun n => Const (CStr n)) r) a (S k)) as [l0|] eqn:E; [|discriminate].
+      cbn in H. pose proof (IH _ _ E) as H0.
+      assert (Forall (fun i => k <= i) l0) by (eapply Forall_impl; [|exact H0]; intros; cbn in *; lia).
+      destruct (String.eqb n a); inversion H; subst; auto.
+  Qed.
+
+  Lemma key_index_none ns a : (forall n, In n ns -> String.eqb n a = false) ->
+    forall k, key_index (map (fun n => Const (CStr n)) ns) a k = Some [].
+  Proof.
+    induction ns as [|n r IH]; intros H k; cbn; [reflexivity|].
+    rewrite IH by (intros m Hm; apply H; right; exact Hm). cbn. rewrite (H n) by (left; reflexivity). reflexivity.
+  Qed.
+
+  Lemma assoc2_last_none {A} a ns : forall (ts : list A), length ns = length ts -> assoc2_last a ns ts = None ->
+    forall n, In n ns -> String.eqb n a = false.
+  Proof.
+    induction ns as [|m r IH]; intros ts Hl H n Hin; [contradiction|].
+    destruct ts as [|t ts']; [discriminate|]. cbn in H, Hl.
+    destruct (assoc2_last a r ts') eqn:E; [discriminate|].
+    destruct (String.eqb m a) eqn:Em; [discriminate|].
+    destruct Hin as [<-|Hin]; [exact Em | eapply IH; eauto].
+  Qed.
+
+  (* the last matching key is the one [assoc2_last] finds *)
+  Lemma key_index_assoc2 ns : forall (ts : list ty) a t k,
+    length ns = length ts -> assoc2_last a ns ts = Some t ->
+    exists i l, key_index (map (fun n => Const (CStr n)) ns) a k = Some (i :: l) /\
+                k <= last l i /\ nth (last l i - k) ts TAny = t.
+  Proof.
+    induction ns as [|n r IH]; intros ts a t k Hlen H; [destruct ts; discriminate|].
+    destruct ts as [|t0 ts]; [discriminate|]. cbn [assoc2_last] in H. cbn [map key_index]. cbn in Hlen.
+    destruct (assoc2_last a r ts) as [t1|] eqn:E.
+    - inversion H; subst. destruct (IH ts a t (S k) ltac:(lia) E) as (i & l & Hk & Hge & Hn). rewrite Hk. cbn.
+      destruct (String.eqb n a).
+      + exists k, (i :: l). split; [reflexivity|].
+        assert (Hl : forall (l0 : list nat) x d, last (x :: l0) d = last l0 x).
+        { clear. induction l0 as [|y l' IHl]; intros x d; [reflexivity|]. change (last (x :: y :: l') d) with (last (y :: l') d). rewrite !IHl. reflexivity. }
+        specialize (Hl l i k).
+        rewrite Hl. split; [lia|]. replace (last l i - k) with (S (last l i - S k)) by lia. exact Hn.
+      + exists i, l. split; [reflexivity|]. split; [lia|].
+        replace (last l i - k) with (S (last l i - S k)) by lia. exact Hn.
+    - destruct (String.eqb n a) eqn:En; [|discriminate]. inversion H; subst.
+      rewrite (key_index_none r a (assoc2_last_none a r ts ltac:(lia) E)). cbn.
+      exists k, []. split; [reflexivity|]. cbn. split; [lia|]. rewrite Nat.sub_diag. reflexivity.
   Qed.
 End Sound.
 
@@ -362,7 +408,8 @@ Section Agree.
     exists out ev, process_method_call W v' tv a aargs kwn akwv = Ok (out, t, ev).
   Proof.
     intros Hr. unfold process_method_call. rewrite method_loop_resolve, Hr. cbn [bind exec mres_of mr_obj mr_node mr_ty mr_ev].
-    destruct (method_callbacks W bo m _) as [site evs]. eauto.
+    destruct (callbacks_of W tv a (bo, m)) as [cbo cm].
+    destruct (method_callbacks W cbo cm _) as [site evs]. eauto.
   Qed.
 
   Lemma candidates_iterable tv :
@@ -406,7 +453,7 @@ Section Agree.
       intros G o l r tl tr _ (l' & al & el & Hl) _ (r' & ar & er & Hr) Hnl Hnr.
       rewrite fx_BinOp, Hl. cbn [bind]. rewrite Hr. cbn [bind]. rewrite binop_promote by assumption. eauto.
     - (* unary *)
-      intros G o x t _ (x' & ax & ex & Hx). rewrite fx_UnaryOp, Hx. cbn [bind]. rewrite unary_uses_lookup_on. cbn. eauto.
+      intros G o x t _ (x' & ax & ex & Hx). rewrite fx_UnaryOp, Hx. cbn [bind]. rewrite unary_uses_lookup_on. cbn [orb]. eauto.
     - (* ifexp, equal types *)
       intros G c x y tc t _ (c' & ac & ec & Hc) _ (x' & ax & ex & Hx) _ (y' & ay & ey & Hy) Heq.
       rewrite fx_IfExp, Hc. cbn [bind]. rewrite Hx. cbn [bind]. rewrite Hy. cbn [bind].
@@ -435,11 +482,12 @@ Section Agree.
         rewrite Nat2Z.id. f_equal. apply nth_error_nth. exact Hn. }
       rewrite Hst. cbn [bind]. eauto.
     - (* field of a dictionary literal *)
-      intros G ns vs ts a t _ (vs' & ev & Hvs) Ha.
+      intros G ns vs ts a t _ (vs' & ev & Hvs) Hlen Ha.
       rewrite fx_Attr, fx_Dict, fl_consts. cbn [bind]. rewrite Hvs. cbn [bind].
       destruct (dict_type_consts ns ts) as [td ->]. cbn [bind].
-      destruct (key_index_assoc2 ns ts a t 0 Ha) as (i & l & Hk & Hnth).
-      unfold attr_type. rewrite Hk. cbn. rewrite Hnth. eauto.
+      destruct (fl_lengths W _ _ _ _ _ Hvs) as [_ Lts].
+      destruct (key_index_assoc2 ns ts a t 0 ltac:(lia) Ha) as (i & l & Hk & _ & Hnth).
+      unfold attr_type. rewrite Hk. cbn [bind]. rewrite Nat.sub_0_r in Hnth. rewrite Hnth. eauto.
     - (* field of a dictionary- / dataclass-typed value *)
       intros G v tv a ns ts t _ (v' & av & ev & Hv) Hd Hr Ha.
       rewrite fx_Attr, Hv. cbn [bind].
@@ -532,7 +580,8 @@ Section Agree.
           by (destruct Hop as [Ho|[Ho|Ho]]; rewrite Ho; exact I).
         destruct (m_op m) eqn:Eop; try contradiction; rewrite Hx; cbn beta; rewrite Hb; cbn [bind];
           rewrite Hfin; cbn [bind mr_obj mr_node mr_ty mr_ev];
-          destruct (method_callbacks W (TCls c [elem]) m _) as [site evs]; eauto. }
+          destruct (callbacks_of W tv a (TCls c [elem], m)) as [cbo cm];
+          destruct (method_callbacks W cbo cm _) as [site evs]; eauto. }
       destruct Hp as (out & ev3 & Hp). unfold aargs in Hp.
       match goal with |- context [bind ?pm _] => replace pm with (Ok (A:=expr * ty * list event) (out, TIter t, ev3)) by (symmetry; exact Hp) end.
       cbn [bind]. eauto.
@@ -598,7 +647,7 @@ Proof.
   - intros G v s tv ts _ IHv _ _ Ht _ t' H'. inversion H'; subst; ihs; [reflexivity | discriminate].
   - intros G es ts i t _ IH Hn t' H'. inversion H'; subst; [discriminate|].
     match goal with E : Z.of_nat _ = Z.of_nat _ |- _ => apply Nat2Z.inj in E; subst end. ihs. congruence.
-  - intros G ns vs ts a t _ IH Ha t' H'. inversion H'; subst; [|discriminate].
+  - intros G ns vs ts a t _ IH _ Ha t' H'. inversion H'; subst; [|discriminate].
     match goal with E : map _ _ = map _ _ |- _ => apply map_const_inj in E; subst end. ihs. congruence.
   - intros G v tv a ns ts t _ IHv Hd Hr Ha t' H'. inversion H'; subst; [discriminate|]. ihs. congruence.
   - intros G x fn args kwn kwv ts tk Hf _ _ _ _ _ _ t' H'. inversion H'; subst.
